@@ -262,3 +262,490 @@ Proof.
     split; lia.
   - exfalso. rewrite (sum_z_perm _ _ Hperm) in Hloop. fold T in Hloop. nia.
 Qed.
+
+(* ------------------------------------------------------------------ records as sets *)
+
+Lemma mem_In x l : mem x l = true <-> In x l.
+Proof.
+  unfold mem. rewrite existsb_exists. split.
+  - intros (y & Hy & He). apply Z.eqb_eq in He. now subst.
+  - intros H. exists x. split; [assumption|apply Z.eqb_refl].
+Qed.
+
+Lemma In_set_add v x l : In v (set_add x l) <-> v = x \/ In v l.
+Proof.
+  induction l as [|y t IH]; cbn [set_add].
+  - simpl. intuition.
+  - destruct (Z.ltb_spec x y) as [Hlt|Hge].
+    + simpl. intuition.
+    + destruct (Z.eqb_spec x y) as [->|Hne].
+      * simpl. intuition.
+      * simpl. rewrite IH. intuition.
+Qed.
+
+Lemma In_set_del v x l : In v (set_del x l) <-> v <> x /\ In v l.
+Proof.
+  unfold set_del. rewrite filter_In. split.
+  - intros [Hin Hb]. split; [|assumption]. intros ->. rewrite Z.eqb_refl in Hb. discriminate.
+  - intros [Hne Hin]. split; [assumption|]. destruct (Z.eqb_spec v x); [contradiction|reflexivity].
+Qed.
+
+Lemma In_opt_in_topn v active m o :
+  In v (opt_in_topn active m o) <->
+  In v o \/ exists a, In a active /\ bid a = v /\ m <= bpow a.
+Proof.
+  unfold opt_in_topn. revert o. induction active as [|a t IH]; intros o; cbn [fold_left].
+  - split; [auto|]. intros [H|(a & [] & _)]. assumption.
+  - rewrite IH. destruct (Z.leb_spec m (bpow a)) as [Hle|Hgt].
+    + rewrite In_set_add. split.
+      * intros [[->|H]|(b & Hb & He & Hm)].
+        -- right. exists a. simpl. auto.
+        -- auto.
+        -- right. exists b. simpl. auto.
+      * intros [H|(b & [<-|Hb] & He & Hm)].
+        -- auto.
+        -- left. left. auto.
+        -- right. exists b. auto.
+    + split.
+      * intros [H|(b & Hb & He & Hm)]; [auto|]. right. exists b. simpl. auto.
+      * intros [H|(b & [<-|Hb] & He & Hm)]; [auto|lia|]. right. exists b. auto.
+Qed.
+
+(* ------------------------------------------------------------------ HandleOptOut *)
+
+Definition may_opt_out (s : state) (power : Z) : Prop :=
+  launched s = true /\ (top_n s <= 0 \/ exists m, thr s = Some m /\ power < m).
+
+Lemma opt_out_spec s v known power :
+  let r := opt_out s v known power in
+  (snd r = 0 <-> known = true /\ may_opt_out s power)
+  /\ (snd r <> 0 -> fst r = s)
+  /\ (snd r = 0 -> fst r = with_opted (set_del v (opted s)) s)
+  /\ (known = true -> launched s = true -> 0 < top_n s -> thr s = None -> snd r = 3)
+  /\ (known = true -> launched s = true -> 0 < top_n s ->
+      forall m, thr s = Some m -> m <= power -> snd r = 4).
+Proof.
+  unfold opt_out, may_opt_out.
+  destruct known; cbn [negb].
+  2:{ cbn [fst snd]. repeat split; try discriminate; try tauto; intros; try lia; intuition discriminate. }
+  destruct (launched s) eqn:Hl; cbn [negb].
+  2:{ cbn [fst snd]. repeat split; try discriminate; try tauto; intros; try lia; intuition discriminate. }
+  destruct (Z.ltb_spec 0 (top_n s)) as [Htop|Htop].
+  - destruct (thr s) as [m|] eqn:Hthr.
+    + destruct (Z.leb_spec m power) as [Hle|Hlt]; cbn [fst snd].
+      * repeat split; try discriminate; try tauto; intros; try lia.
+        -- destruct H as (_ & _ & [H|(m' & Hm' & Hp)]); [lia|]. injection Hm' as <-. lia.
+      * repeat split; try discriminate; try tauto; intros; try lia.
+        -- right. exists m. auto.
+        -- injection H2 as <-. lia.
+    + cbn [fst snd]. repeat split; try discriminate; try tauto; intros; try lia.
+      destruct H as (_ & _ & [H|(m' & Hm' & _)]); [lia|discriminate].
+  - cbn [fst snd]. repeat split; try discriminate; try tauto; intros; try lia.
+Qed.
+
+(* ------------------------------------------------------------------ ComputeConsumerNextValSet *)
+
+Definition passes_filters (s : state) (b : bval) : Prop :=
+  (allow s = [] \/ In (bid b) (allow s))
+  /\ (deny s = [] \/ ~ In (bid b) (deny s))
+  /\ (min_stake s = 0 \/ min_stake s <= btok b).
+
+(* the staking oracle is well formed: the active validators are bonded validators and there are at
+   most MaxProviderConsensusValidators of them *)
+Definition oracle_ok (active bonded : list bval) (maxv : Z) : Prop :=
+  incl active bonded /\ Z.of_nat (length active) <= maxv.
+
+Lemma is_empty_true {A} (l : list A) : is_empty l = true <-> l = [].
+Proof. destruct l; simpl; split; congruence. Qed.
+
+Lemma candidates_active s active bonded maxv a :
+  oracle_ok active bonded maxv -> In a active -> In a (candidates s active bonded maxv).
+Proof.
+  intros [Hincl Hlen] Ha. unfold candidates.
+  destruct (allow_inactive s).
+  - apply (Permutation_in _ (Permutation_sym (sort_desc_perm btok bonded))). apply Hincl, Ha.
+  - rewrite sort_desc_length.
+    destruct (Z.ltb_spec maxv (Z.of_nat (length active))) as [?|_]; [lia|].
+    apply (Permutation_in _ (Permutation_sym (sort_desc_perm btok active))). exact Ha.
+Qed.
+
+Lemma firstn_incl {A} n (l : list A) x : In x (firstn n l) -> In x l.
+Proof. intros H. rewrite <- (firstn_skipn n l). apply in_or_app. left. exact H. Qed.
+
+Lemma candidates_sub s active bonded maxv b :
+  In b (candidates s active bonded maxv) -> In b active \/ In b bonded.
+Proof.
+  unfold candidates. destruct (allow_inactive s).
+  - intros H. right. apply (Permutation_in _ (sort_desc_perm btok bonded)), H.
+  - destruct (maxv <? _); intros H; left.
+    + apply firstn_incl in H. apply (Permutation_in _ (sort_desc_perm btok active)), H.
+    + apply (Permutation_in _ (sort_desc_perm btok active)), H.
+Qed.
+
+(* what a successful ComputeConsumerNextValSet does on a Top-N consumer *)
+Lemma compute_next_topn s active bonded maxv s' :
+  0 < top_n s ->
+  compute_next s active bonded maxv = Some s' ->
+  exists m,
+    compute_min_power (map bpow active) (top_n s) = Some m
+    /\ thr s' = Some m
+    /\ opted s' = opt_in_topn active m (opted s)
+    /\ valset s' = next_validators s' active bonded maxv m
+    /\ top_n s' = top_n s /\ launched s' = launched s
+    /\ allow s' = allow s /\ deny s' = deny s /\ min_stake s' = min_stake s
+    /\ allow_inactive s' = allow_inactive s.
+Proof.
+  intros Htop. unfold compute_next.
+  destruct (Z.ltb_spec 0 (top_n s)) as [_|?]; [|lia].
+  destruct (compute_min_power (map bpow active) (top_n s)) as [m|]; [|discriminate].
+  intros [= <-]. exists m. cbn. repeat split; reflexivity.
+Qed.
+
+Lemma included_core s active bonded maxv s' :
+  0 < top_n s ->
+  compute_next s active bonded maxv = Some s' ->
+  oracle_ok active bonded maxv ->
+  exists m,
+    compute_min_power (map bpow active) (top_n s) = Some m
+    /\ thr s' = Some m
+    /\ forall a, In a active -> m <= bpow a -> passes_filters s a ->
+         In (bid a) (valset s') /\ In (bid a) (opted s').
+Proof.
+  intros Htop Hc Hor.
+  destruct (compute_next_topn _ _ _ _ _ Htop Hc)
+    as (m & Hm & Hthr & Hopt & Hvs & Htn & _ & Hal & Hdl & Hms & Hai).
+  exists m. split; [assumption|]. split; [assumption|].
+  intros a Ha Hpow (Hallow & Hdeny & Hstake).
+  assert (Hrec : In (bid a) (opted s')).
+  { rewrite Hopt. apply In_opt_in_topn. right. exists a. auto. }
+  split; [|assumption].
+  rewrite Hvs. unfold next_validators. apply in_map. apply filter_In. split.
+  - apply candidates_active; assumption.
+  - unfold can_validate, fulfills_min_stake. rewrite Hal, Hdl, Hms.
+    apply andb_true_iff. split; [apply andb_true_iff; split; [apply andb_true_iff; split|]|].
+    + apply orb_true_iff. left. apply mem_In, Hrec.
+    + apply orb_true_iff. destruct Hallow as [->|Hin]; [left; reflexivity|right; apply mem_In, Hin].
+    + apply orb_true_iff. destruct Hdeny as [->|Hnin]; [left; reflexivity|right].
+      apply negb_true_iff. destruct (mem (bid a) (deny s)) eqn:E; [|reflexivity].
+      apply mem_In in E. contradiction.
+    + apply orb_true_iff. destruct Hstake as [->|Hle]; [left; reflexivity|right; apply Z.leb_le, Hle].
+Qed.
+
+(* members of the computed set below the threshold held an opt-in record before the epoch *)
+Lemma below_core s active bonded maxv s' :
+  0 < top_n s ->
+  compute_next s active bonded maxv = Some s' ->
+  exists m, thr s' = Some m /\
+    forall v, In v (valset s') ->
+      exists b, (In b active \/ In b bonded) /\ bid b = v /\
+        (m <= bpow b \/ (In v (opted s) /\ In v (opted s')) \/
+         exists a, In a active /\ bid a = v /\ m <= bpow a).
+Proof.
+  intros Htop Hc.
+  destruct (compute_next_topn _ _ _ _ _ Htop Hc)
+    as (m & Hm & Hthr & Hopt & Hvs & Htn & _).
+  exists m. split; [assumption|]. intros v Hv.
+  rewrite Hvs in Hv. unfold next_validators in Hv. apply in_map_iff in Hv.
+  destruct Hv as (b & Hb & Hin). apply filter_In in Hin. destruct Hin as [Hcand Hok].
+  exists b. split; [eapply candidates_sub; eassumption|]. split; [assumption|].
+  unfold can_validate in Hok. repeat (apply andb_true_iff in Hok; destruct Hok as [Hok ?]).
+  apply orb_true_iff in Hok. destruct Hok as [Hrec|Hpow].
+  - apply mem_In in Hrec. rewrite Hb in Hrec. pose proof Hrec as Hrec'.
+    rewrite Hopt in Hrec. apply In_opt_in_topn in Hrec.
+    destruct Hrec as [Hold|Hauto]; [right; left; split; assumption|right; right; exact Hauto].
+  - apply andb_true_iff in Hpow. destruct Hpow as [_ Hpow]. left. apply Z.leb_le, Hpow.
+Qed.
+
+Lemma epoch_ok s active bonded maxv s' :
+  launched s = true -> step s (Epoch active bonded maxv) = (s', 0) ->
+  compute_next s active bonded maxv = Some s'.
+Proof.
+  intros Hl. cbn [step]. unfold epoch. rewrite Hl. cbn [negb].
+  destruct (compute_next s active bonded maxv) as [x|]; intros [= <-]; try reflexivity.
+Qed.
+
+Lemma launch_ok s active bonded maxv s' :
+  step s (Launch active bonded maxv) = (s', 0) ->
+  exists s1, compute_next s active bonded maxv = Some s1 /\ s' = with_launched s1 /\ launched s = false.
+Proof.
+  cbn [step]. unfold launch. destruct (launched s); [discriminate|].
+  destruct (compute_next s active bonded maxv) as [x|]; [|discriminate].
+  destruct (is_empty (valset x)); [discriminate|].
+  destruct (negb _); [discriminate|].
+  intros [= <-]. exists x. auto.
+Qed.
+
+(* an Epoch or a successful Launch *)
+Definition recomputes (s : state) (o : op) (active bonded : list bval) (maxv : Z) : Prop :=
+  (o = Epoch active bonded maxv /\ launched s = true) \/ o = Launch active bonded maxv.
+
+Lemma recompute_next s o active bonded maxv s' :
+  recomputes s o active bonded maxv -> step s o = (s', 0) ->
+  exists s1, compute_next s active bonded maxv = Some s1
+    /\ thr s' = thr s1 /\ opted s' = opted s1 /\ valset s' = valset s1.
+Proof.
+  intros [[-> Hl] | ->] Hstep.
+  - exists s'. split; [eapply epoch_ok; eassumption|auto].
+  - destruct (launch_ok _ _ _ _ _ Hstep) as (s1 & Hc & -> & _). exists s1. auto.
+Qed.
+
+Theorem included s o active bonded maxv s' :
+  recomputes s o active bonded maxv -> 0 < top_n s ->
+  step s o = (s', 0) ->
+  oracle_ok active bonded maxv ->
+  exists m,
+    compute_min_power (map bpow active) (top_n s) = Some m
+    /\ thr s' = Some m
+    /\ forall a, In a active -> m <= bpow a -> passes_filters s a ->
+         In (bid a) (valset s') /\ In (bid a) (opted s').
+Proof.
+  intros Hr Htop Hstep Hor.
+  destruct (recompute_next _ _ _ _ _ _ Hr Hstep) as (s1 & Hc & Ht & Ho & Hv).
+  destruct (included_core _ _ _ _ _ Htop Hc Hor) as (m & Hm & Hthr & Hall).
+  exists m. rewrite Ht, Ho, Hv. auto.
+Qed.
+
+Theorem below_threshold s o active bonded maxv s' :
+  recomputes s o active bonded maxv -> 0 < top_n s ->
+  step s o = (s', 0) ->
+  exists m, thr s' = Some m /\
+    forall v, In v (valset s') ->
+      exists b, (In b active \/ In b bonded) /\ bid b = v /\
+        (m <= bpow b \/ (In v (opted s) /\ In v (opted s')) \/
+         exists a, In a active /\ bid a = v /\ m <= bpow a).
+Proof.
+  intros Hr Htop Hstep.
+  destruct (recompute_next _ _ _ _ _ _ Hr Hstep) as (s1 & Hc & Ht & Ho & Hv).
+  destruct (below_core _ _ _ _ _ Htop Hc) as (m & Hthr & Hall).
+  exists m. rewrite Ht, Ho, Hv. auto.
+Qed.
+
+(* ------------------------------------------------------------------ history of opt-in records *)
+
+(* operation [o], executed in state [s], creates an opt-in record for [v]:
+   a successful MsgOptIn of v, or an epoch / successful launch of a Top-N consumer at which v is an
+   active validator with power at least the threshold computed at that moment *)
+Definition grants (s : state) (o : op) (v : Z) : Prop :=
+  match o with
+  | OptIn v' known => v' = v /\ snd (step s o) = 0
+  | Epoch active _ _ | Launch active _ _ =>
+    snd (step s o) = 0 /\ (launched s = true \/ exists a b m, o = Launch a b m) /\ 0 < top_n s /\
+    exists m a, compute_min_power (map bpow active) (top_n s) = Some m
+                /\ In a active /\ bid a = v /\ m <= bpow a
+  | _ => False
+  end.
+
+(* operation [o], executed in state [s], removes the record of [v]: a successful MsgOptOut of v *)
+Definition revokes (s : state) (o : op) (v : Z) : Prop :=
+  match o with
+  | OptOut v' _ _ => v' = v /\ snd (step s o) = 0
+  | _ => False
+  end.
+
+Lemma compute_next_optin s active bonded maxv s' :
+  compute_next s active bonded maxv = Some s' ->
+  forall v, In v (opted s') <->
+    In v (opted s) \/
+    (0 < top_n s /\ exists m a, compute_min_power (map bpow active) (top_n s) = Some m
+                                /\ In a active /\ bid a = v /\ m <= bpow a).
+Proof.
+  intros Hc v. destruct (Z.ltb_spec 0 (top_n s)) as [Htop|Htop].
+  - destruct (compute_next_topn _ _ _ _ _ Htop Hc) as (m & Hm & _ & Hopt & _).
+    rewrite Hopt, In_opt_in_topn. split.
+    + intros [H|(a & Ha & Hb & Hp)]; [auto|]. right. split; [assumption|]. exists m, a. auto.
+    + intros [H|(_ & m' & a & Hm' & Ha & Hb & Hp)]; [auto|].
+      rewrite Hm in Hm'. injection Hm' as <-. right. exists a. auto.
+  - unfold compute_next in Hc. destruct (Z.ltb_spec 0 (top_n s)) as [?|_]; [lia|].
+    injection Hc as <-. cbn. split; [auto|]. intros [H|[? _]]; [assumption|lia].
+Qed.
+
+Lemma step_opted s o v :
+  In v (opted (fst (step s o))) <-> grants s o v \/ (In v (opted s) /\ ~ revokes s o v).
+Proof.
+  destruct o as [n al dl ms ai active|active bonded maxv|active bonded maxv|v' known|v' known power].
+  - (* SetTopN never touches the records *)
+    assert (Hsame : opted (fst (step s (SetTopN n al dl ms ai active))) = opted s).
+    { cbn [step]. unfold set_top_n.
+      destruct (negb (n =? 0) && ((n <? 50) || (100 <? n))); [reflexivity|].
+      destruct (negb (n =? top_n s)); [|reflexivity].
+      destruct (0 <? n); [|reflexivity].
+      destruct (compute_min_power (map bpow active) n); reflexivity. }
+    rewrite Hsame. cbn [grants revokes]. tauto.
+  - (* Launch *)
+    cbn [grants revokes].
+    destruct (step s (Launch active bonded maxv)) as [s' c] eqn:Hstep. cbn [fst snd].
+    destruct (Z.eq_dec c 0) as [->|Hc].
+    + destruct (launch_ok _ _ _ _ _ Hstep) as (s1 & Hcn & -> & Hl).
+      change (opted (with_launched s1)) with (opted s1).
+      rewrite (compute_next_optin _ _ _ _ _ Hcn v). split.
+      * intros [H|(Htop & m & a & H)]; [right; tauto|].
+        left. split; [reflexivity|]. split; [right; eauto|]. split; [assumption|]. exists m, a. exact H.
+      * intros [(_ & _ & Htop & m & a & H)|[H _]]; [right|left; assumption].
+        split; [assumption|]. exists m, a. exact H.
+    + assert (s' = s) as ->.
+      { revert Hstep. cbn [step]. unfold launch. destruct (launched s); [intros [= <- _]; reflexivity|].
+        destruct (compute_next s active bonded maxv) as [x|]; [|intros [= <- _]; reflexivity].
+        destruct (is_empty (valset x)); [intros [= <- _]; reflexivity|].
+        destruct (negb _); [intros [= <- _]; reflexivity|]. intros [= _ <-]. contradiction. }
+      split; [intros H; right; tauto|]. intros [(H & _)|[H _]]; [contradiction|assumption].
+  - (* Epoch *)
+    cbn [grants revokes].
+    destruct (step s (Epoch active bonded maxv)) as [s' c] eqn:Hstep. cbn [fst snd].
+    revert Hstep. cbn [step]. unfold epoch.
+    destruct (launched s) eqn:Hl; cbn [negb].
+    + destruct (compute_next s active bonded maxv) as [x|] eqn:Hcn; intros [= <- <-].
+      * rewrite (compute_next_optin _ _ _ _ _ Hcn v). split.
+        -- intros [H|(Htop & m & a & H)]; [right; tauto|].
+           left. split; [reflexivity|]. split; [left; reflexivity|]. split; [assumption|]. exists m, a. exact H.
+        -- intros [(_ & _ & Htop & m & a & H)|[H _]]; [right|left; assumption].
+           split; [assumption|]. exists m, a. exact H.
+      * split; [intros H; right; tauto|]. intros [(H & _)|[H _]]; [discriminate|assumption].
+    + intros [= <- <-]. split; [intros H; right; tauto|].
+      intros [(_ & [H|(a & b & m & H)] & _)|[H _]]; [discriminate|discriminate|assumption].
+  - (* OptIn *)
+    cbn [grants revokes step]. unfold opt_in. destruct known; cbn [negb fst snd].
+    + change (opted (with_opted (set_add v' (opted s)) s)) with (set_add v' (opted s)).
+      rewrite In_set_add. split.
+      * intros [->|H]; [left; auto|right; tauto].
+      * intros [[-> _]|[H _]]; auto.
+    + split; [intros H; right; tauto|]. intros [[_ H]|[H _]]; [discriminate|assumption].
+  - (* OptOut *)
+    cbn [grants revokes].
+    pose proof (opt_out_spec s v' known power) as (Hiff & Hfail & Hok & _).
+    cbn [step]. destruct (opt_out s v' known power) as [s' c]. cbn [fst snd] in *.
+    destruct (Z.eq_dec c 0) as [->|Hc].
+    + rewrite (Hok eq_refl). change (opted (with_opted (set_del v' (opted s)) s)) with (set_del v' (opted s)).
+      rewrite In_set_del. split.
+      * intros [Hne Hin]. right. split; [assumption|]. intros [-> _]. contradiction.
+      * intros [[]|[Hin Hnr]]. split; [|assumption]. intros ->. apply Hnr. auto.
+    + rewrite (Hfail Hc). split; [intros H; right; split; [assumption|]; intros [_ H']; contradiction|].
+      intros [[]|[H _]]. assumption.
+Qed.
+
+Lemma exec_snoc ops o : exec (ops ++ [o]) = fst (step (exec ops) o).
+Proof. unfold exec. rewrite fold_left_app. reflexivity. Qed.
+
+Lemma snoc_cases {A} (l : list A) : l = [] \/ exists l' x, l = l' ++ [x].
+Proof.
+  induction l as [|a t IH] using rev_ind; [left; reflexivity|right]. exists t, a. reflexivity.
+Qed.
+
+(* v holds a record after [ops] iff some operation of the history created it and no later
+   operation was a successful opt-out of v *)
+Definition justified (ops : list op) (v : Z) : Prop :=
+  exists pre o post, ops = pre ++ o :: post
+    /\ grants (exec pre) o v
+    /\ forall p1 o' p2, post = p1 ++ o' :: p2 -> ~ revokes (exec (pre ++ o :: p1)) o' v.
+
+Theorem history ops v : In v (opted (exec ops)) <-> justified ops v.
+Proof.
+  induction ops as [|o ops IH] using rev_ind.
+  - split; [intros []|]. intros (pre & o & post & H & _). destruct pre; discriminate.
+  - rewrite exec_snoc, step_opted. split.
+    + intros [Hg|[Hin Hnr]].
+      * exists ops, o, []. split; [reflexivity|]. split; [assumption|].
+        intros p1 o' p2 H. destruct p1; discriminate.
+      * apply IH in Hin. destruct Hin as (pre & o0 & post & -> & Hg & Hpost).
+        exists pre, o0, (post ++ [o]). split; [rewrite <- app_assoc; reflexivity|]. split; [assumption|].
+        intros p1 o' p2 Hsplit.
+        destruct (snoc_cases p2) as [->|(p2' & x & ->)].
+        -- apply app_inj_tail in Hsplit. destruct Hsplit as [-> ->]. exact Hnr.
+        -- rewrite app_comm_cons, app_assoc in Hsplit. apply app_inj_tail in Hsplit.
+           destruct Hsplit as [-> _]. eapply Hpost. reflexivity.
+    + intros (pre & o0 & post & Heq & Hg & Hpost).
+      destruct (snoc_cases post) as [->|(post' & x & ->)].
+      * apply app_inj_tail in Heq. destruct Heq as [-> ->]. left. exact Hg.
+      * rewrite app_comm_cons, app_assoc in Heq. apply app_inj_tail in Heq. destruct Heq as [-> Hox].
+        subst x. right. split.
+        -- apply IH. exists pre, o0, post'. split; [reflexivity|]. split; [assumption|].
+           intros p1 o' p2 ->. apply (Hpost p1 o' (p2 ++ [o])). rewrite <- app_assoc. reflexivity.
+        -- apply (Hpost post' o []). reflexivity.
+Qed.
+
+(* ------------------------------------------------------------------ reachable states *)
+
+Definition wf (s : state) : Prop :=
+  (top_n s = 0 \/ 50 <= top_n s <= 100) /\ (0 < top_n s -> exists m, thr s = Some m).
+
+Lemma compute_next_frame s active bonded maxv s' :
+  compute_next s active bonded maxv = Some s' ->
+  top_n s' = top_n s /\ (0 < top_n s -> exists m, thr s' = Some m) /\ (top_n s <= 0 -> thr s' = thr s).
+Proof.
+  intros Hc. destruct (Z.ltb_spec 0 (top_n s)) as [Htop|Htop].
+  - destruct (compute_next_topn _ _ _ _ _ Htop Hc) as (m & _ & Ht & _ & _ & Hn & _).
+    split; [assumption|]. split; [eauto|lia].
+  - unfold compute_next in Hc. destruct (Z.ltb_spec 0 (top_n s)) as [?|_]; [lia|].
+    injection Hc as <-. cbn. split; [reflexivity|]. split; [lia|reflexivity].
+Qed.
+
+Lemma step_wf s o : wf s -> wf (fst (step s o)).
+Proof.
+  intros [Hrange Hthr]. unfold wf.
+  destruct o as [n al dl ms ai active|active bonded maxv|active bonded maxv|v' known|v' known power]; cbn [step].
+  - unfold set_top_n.
+    destruct (Z.eqb_spec n 0) as [->|Hn0]; cbn [negb andb].
+    + destruct (Z.eqb_spec 0 (top_n s)) as [He|Hne]; cbn [negb fst].
+      * cbn. split; [auto|lia].
+      * cbn. split; [auto|lia].
+    + destruct (Z.ltb_spec n 50) as [?|H50]; cbn [orb fst]; [auto|].
+      destruct (Z.ltb_spec 100 n) as [?|H100]; cbn [fst]; [auto|].
+      destruct (Z.eqb_spec n (top_n s)) as [He|Hne]; cbn [negb fst].
+      * cbn. split; [right; lia|]. intros _. apply Hthr. lia.
+      * destruct (Z.ltb_spec 0 n) as [_|?]; [|lia].
+        destruct (compute_min_power (map bpow active) n) as [m|]; cbn; [|auto].
+        split; [right; lia|eauto].
+  - unfold launch. destruct (launched s); [cbn; auto|].
+    destruct (compute_next s active bonded maxv) as [x|] eqn:Hc; [|cbn; auto].
+    destruct (is_empty (valset x)); [cbn; auto|]. destruct (negb _); [cbn; auto|].
+    destruct (compute_next_frame _ _ _ _ _ Hc) as (Hn & Hs & _). cbn. rewrite Hn. split; [assumption|].
+    intros Htop. apply Hs. assumption.
+  - unfold epoch. destruct (launched s); cbn [negb]; [|cbn; auto].
+    destruct (compute_next s active bonded maxv) as [x|] eqn:Hc; [|cbn; auto].
+    destruct (compute_next_frame _ _ _ _ _ Hc) as (Hn & Hs & _). cbn. rewrite Hn. split; [assumption|].
+    intros Htop. apply Hs. assumption.
+  - unfold opt_in. destruct known; cbn; auto.
+  - pose proof (opt_out_spec s v' known power) as (_ & Hfail & Hok & _).
+    destruct (opt_out s v' known power) as [s' c]. cbn [fst snd] in *.
+    destruct (Z.eq_dec c 0) as [->|Hc]; [rewrite (Hok eq_refl); cbn; auto|rewrite (Hfail Hc); auto].
+Qed.
+
+Theorem exec_wf ops : wf (exec ops).
+Proof.
+  induction ops as [|o ops IH] using rev_ind.
+  - cbn. split; [auto|]. cbn. lia.
+  - rewrite exec_snoc. apply step_wf, IH.
+Qed.
+
+(* on reachable states the "minimum power not found" branch of HandleOptOut is dead *)
+Theorem opt_out_reachable ops v known power :
+  let s := exec ops in
+  snd (step s (OptOut v known power)) = 0 <->
+  known = true /\ launched s = true /\
+  (top_n s = 0 \/ exists m, thr s = Some m /\ power < m).
+Proof.
+  intros s. pose proof (exec_wf ops) as [Hrange Hthr]. fold s in Hrange, Hthr.
+  pose proof (opt_out_spec s v known power) as (Hiff & _). cbn [step].
+  rewrite Hiff. unfold may_opt_out. split.
+  - intros (Hk & Hl & [Hle|H]); repeat split; auto. left. lia.
+  - intros (Hk & Hl & [He|H]); repeat split; auto. left. lia.
+Qed.
+
+(* ------------------------------------------------------------------ the precision bound is needed *)
+
+(* total = 10^18 + 1 >= 2*10^16: the first validator alone holds 5*10^-19 less than 50 %, yet
+   Quo rounds its share to exactly 0.5 and the function returns its power *)
+Lemma rounding_witness :
+  let powers := [500000000000000000; 250000000000000000; 250000000000000001] in
+  compute_min_power powers 50 = Some 500000000000000000
+  /\ 100 * sum_ge 500000000000000000 powers < 50 * sum_z powers
+  /\ spec_min_power powers 50 = Some 250000000000000001.
+Proof. vm_compute. repeat split; reflexivity. Qed.
+
+(* ------------------------------------------------------------------ a concrete history (non-vacuity example of Props/C03.v) *)
+
+Definition ex_vals : list bval := [mkB 0 100 100000000; mkB 2 40 40000000; mkB 1 30 30000000].
+Definition ex_vals' : list bval := [mkB 2 40 40000000; mkB 1 30 30000000; mkB 0 20 20000000].
+Definition ex_ops : list op :=
+  [ OptIn 1 true; SetTopN 67 [] [] 0 false ex_vals; Launch ex_vals ex_vals 3;
+    Epoch ex_vals' ex_vals' 3; OptOut 0 true 20; OptOut 2 true 40 ].
+
